@@ -1,7 +1,7 @@
 /-
   C19 — model of rtosc::AutomationMgr (src/cpp/automations.cpp, include/rtosc/automations.h)
-  as repaired by fixes/C19-clearslot.patch, fixes/C19-nrpn-init.patch and
-  fixes/C19-nrpn-partial.patch.
+  as repaired by fixes/C19-clearslot.patch, fixes/C19-nrpn-init.patch,
+  fixes/C19-nrpn-partial.patch and fixes/C19-int-log-scale.patch.
 
   Two layers:
   * the bookkeeping (learn queue numbering, controller bindings, which automation emits to
@@ -20,6 +20,12 @@
   `relative`, `param_base_value`, `param_step`, `damaged`, `active_slot`, control points 0
   and 2 (constants 0 and 1, never read).  The control points 1 and 3 are only read for a
   `used` automation and every path that sets `used` runs updateMapping first.
+
+  Ghost state (nothing in the code, nothing reads it in the model): `Automation.bound`
+  remembers the arguments of the createBinding / setSlotSubPath call that filled the
+  automation — the address that was passed and what `apropos` found for it — so that the
+  theorems can speak about "the bound parameter".  It is set where the code sets
+  `used = true` and dropped where the code sets `used = false`.
 -/
 import RtoscModel.Basic
 namespace Rtosc.Auto
@@ -75,6 +81,8 @@ structure Automation (F : Type) where
   cp3 : F
   gain : F
   offset : F
+  /-- ghost: address and port of the call that bound this automation (see the header) -/
+  bound : Option (Bytes × PortInfo F) := none
 
 structure Slot (F : Type) where
   used : Bool
@@ -99,19 +107,20 @@ inductive Val (F : Type) where
   | int (n : Int)
   | flt (x : F)
 
-/-- a message handed to `backend`: address, type tag, value; `viaExp` records that the float
-    is the result of `expf` (log-scale parameter) -/
+/-- a message handed to `backend`: address, type tag (the whole type string is this one
+    character), value; `expArg` is the argument of `expf` when the value is the result of
+    `expf` (log-scale parameter) — an observation aid for the driver, not part of the message -/
 structure Msg (F : Type) where
   addr : Bytes
   ty : Char
   val : Val F
-  viaExp : Bool := false
+  expArg : Option F := none
 
 variable {F : Type}
 
 def Automation.init (A : Arith F) : Automation F :=
   { used := false, path := [], ty := Char.ofNat 0, pmin := A.zero, pmax := A.zero, logScale := false,
-    cp1 := A.zero, cp3 := A.zero, gain := A.hundred, offset := A.zero }
+    cp1 := A.zero, cp3 := A.zero, gain := A.hundred, offset := A.zero, bound := none }
 
 def Slot.init (A : Arith F) (perSlot : Nat) : Slot F :=
   { used := false, learning := -1, midiCC := -1, midiNrpn := -1, current := A.zero,
@@ -158,10 +167,14 @@ def emit (A : Arith F) (au : Automation F) (value : F) : List (Msg F) :=
   else
     let v := A.add32 (A.mul32 value (A.sub32 au.cp3 au.cp1)) au.cp1
     if au.ty = 'i' then
-      [{ addr := au.path, ty := 'i', val := .int (A.toInt (A.roundf (clamp A au.pmin au.pmax v))) }]
+      let c := clamp A au.pmin au.pmax v
+      -- repaired (fixes/C19-int-log-scale.patch): a log-scale integer goes back through expf
+      if au.logScale then
+        [{ addr := au.path, ty := 'i', val := .int (A.toInt (A.roundf (A.expf c))), expArg := some c }]
+      else [{ addr := au.path, ty := 'i', val := .int (A.toInt (A.roundf c)) }]
     else if au.ty = 'f' then
       let c := clamp A au.pmin au.pmax v
-      if au.logScale then [{ addr := au.path, ty := 'f', val := .flt (A.expf c), viaExp := true }]
+      if au.logScale then [{ addr := au.path, ty := 'f', val := .flt (A.expf c), expArg := some c }]
       else [{ addr := au.path, ty := 'f', val := .flt c }]
     else if au.ty = 'T' || au.ty = 'F' then
       [{ addr := au.path, ty := if A.gt v A.half then 'T' else 'F', val := .none }]
@@ -191,7 +204,7 @@ def setSlot (A : Arith F) (m : Mgr F) (s : Int) (value : F) : Mgr F × List (Msg
 /-- `AutomationMgr::clearSlotSub` on one automation -/
 def Automation.clear (A : Arith F) (au : Automation F) : Automation F :=
   { au with used := false, path := [], ty := Char.ofNat 0, pmin := A.zero, pmax := A.zero,
-            gain := A.hundred, offset := A.zero }
+            gain := A.hundred, offset := A.zero, bound := none }
 
 /-- `AutomationMgr::clearSlotSub(slot_id, sub)` -/
 def clearSlotSub (A : Arith F) (m : Mgr F) (s j : Int) : Mgr F :=
@@ -228,7 +241,7 @@ def bindInfo (A : Arith F) (au : Automation F) (path : Bytes) (p : PortInfo F) :
   match mm with
   | none => none
   | some (mn, mx) =>
-    let au1 := { au with used := true, ty := ty, path := path.take 127 }
+    let au1 := { au with used := true, ty := ty, path := path.take 127, bound := some (path, p) }
     if p.scaleLog then
       let lo := match p.logmin with
         | some l => A.to32 l                                      -- logf(double): converted to float
